@@ -589,6 +589,7 @@ func infoID(m *sarama.ProducerMessage) interface{} {
 
 func (ps *prodScen) onEvent(m *sarama.ProducerMessage, err error) {
 	k := ps.r.k
+	evPartition, evOffset := m.Partition, m.Offset // read before the object may be recycled by a submitting goroutine
 	ps.mu.Lock()
 	mi := ps.byPtr[m]
 	if mi != nil && err == nil && len(ps.reusable) < 4 {
@@ -599,10 +600,10 @@ func (ps *prodScen) onEvent(m *sarama.ProducerMessage, err error) {
 		ps.r.violate("C01.foreign-event", "event (err=%v) for a message the application did not submit: topic=%q partition=%d flags/metadata=%v", err, m.Topic, m.Partition, m.Metadata)
 		return
 	}
-	ev := pevent{ok: err == nil, err: err, partition: m.Partition, offset: m.Offset, e: k.stamp(), us: k.nowUs()}
+	ev := pevent{ok: err == nil, err: err, partition: evPartition, offset: evOffset, e: k.stamp(), us: k.nowUs()}
 	mi.events = append(mi.events, ev)
 	if err == nil {
-		k.logf("SUCC m%d p%d@%d", mi.id, m.Partition, m.Offset)
+		k.logf("SUCC m%d p%d@%d", mi.id, evPartition, evOffset)
 	} else {
 		k.logf("ERR m%d %v", mi.id, err)
 	}
